@@ -373,6 +373,23 @@ def mentioned_variables(cons, sets):
     return names
 
 
+EPI_CASES = []
+EPI_HEADER = (HEADER + '\nFrom SageVerif Require Import Model.TripletIdioms Gen.GenEpi.\n'
+              "Definition gmodel (x : Z * Z * atom) : list cone * list rrow := let '(dummy, t, a) := x in gen_epi_block dummy t a.\n"
+              "Definition g_eqb (m i : list cone * list rrow) : bool := list_eqb' cone_eqb (fst m) (fst i) && list_eqb' rrow_eqb (snd m) (snd i).")
+
+
+def epi_case(a, desc, t):
+    """the triplets one atom's epigraph_conic_form returns, read row by row (entries in list order), for the suite epi_generated"""
+    from sageopt.coniclifts.base import ScalarVariable
+    dummy = int(ScalarVariable.curr_variable_count()) - 1
+    A_vals, A_rows, A_cols, b, K = a.epigraph_conic_form()
+    rows = []
+    for r in range(len(b)):
+        rows.append(([(int(c), qe(v)) for v, rr, c in zip(A_vals, A_rows, A_cols) if int(rr) == r], qe(b[r])))
+    return cq((dummy, int(t), desc)), cq(([(Raw(TAG[co.type]), Nat(int(co.len))) for co in K], rows))
+
+
 def one_case(rng):
     import sageopt.coniclifts as cl
     user, cons, sets, kinds = build_model(rng)
@@ -419,6 +436,12 @@ def one_case(rng):
                 why = ('compilation #%d of the same constraint objects gives cones %s with %d rows over the user Variables %s; the first '
                        'compilation gave %s with %d rows over %s' % (rep, sig2[0], sig2[1], sig2[2], sig0[0], sig0[1], sig0[2]))
                 break
+    if why is None and len(EPI_CASES) < 400:
+        for (desc, t), a in zip(tbl, atoms):
+            try:
+                EPI_CASES.append(epi_case(a, desc, t))
+            except Exception as e:
+                why = 'epigraph_conic_form of the atom %s raised %r' % (cq(desc)[:200], e)
     cin = cq((tbl, dummy, cs, ss, vars_in))
     return cin, js, cq(out), why, kinds
 
@@ -455,6 +478,19 @@ def run(ctx):
             ctx.problem('correspondence', 'suite compile: model and implementation disagree on model %s; input=%s impl=%s model=%s '
                         '(the semantic oracle passed on this model)' % (cases[idx][0], cases[idx][1][:1500], cases[idx][2][:1500], model_out[:1500]),
                         inputs={'model': cases[idx][0]}, failing_input_found=False)
+    ecases = list(EPI_CASES)
+    del EPI_CASES[:]
+    mism, err = vlib.run_suite_in_coq(ctx.pid, 'epi_generated', EPI_HEADER, 'gmodel', 'g_eqb', 'Z * Z * atom', 'list cone * list rrow', ecases, shard=200)
+    ctx.suites['epi_generated'] = {'cases': len(ecases), 'mismatches': None if mism is None else len(mism)}
+    ctx.evaluations += len(ecases)
+    if err:
+        ctx.problem('correspondence', 'suite epi_generated: ' + err)
+    else:
+        for idx in mism[:2]:
+            model_out = vlib.coq_show(EPI_HEADER, 'gmodel %s' % ecases[idx][0])
+            ctx.problem('correspondence', 'suite epi_generated: the regenerated epigraph_conic_form (Gen/GenEpi.v, idioms of Model/TripletIdioms.v) and the '
+                        'implementation disagree on (dummy, epigraph id, atom) = %s; impl=%s generated=%s' % (ecases[idx][0][:600], ecases[idx][1][:800], model_out[:800]),
+                        inputs={'suite': 'epi_generated', 'input': ecases[idx][0][:600]}, failing_input_found=False)
     why = oracle_later_arguments(ctx.rng)
     ctx.evaluations += 1
     if why:
